@@ -144,6 +144,37 @@ def items (f : Bytes) : Except Err (List (List Char × Val)) :=
   | .error e => .error e
   | .ok d => d.mapM fun (k, s) => (getData f s).map fun v => (k, v)
 
+/-! ## reading through one shared file object (`Xpak(fileobj)`)
+
+For a file-object source `_fd` is the *same* object for every `items()`/`values()` generator and every
+`x[key]`/`x.get(key)` on the instance, so data reads of one instance interleave on one file position. -/
+
+/-- a read-only file object: content and the position `fd.tell()` -/
+structure RFd where
+  content : Bytes
+  pos : Nat
+
+/-- `_get_data(fd, offset, data_len, needs_decoding)` on a file object whose position is wherever the
+previous read left it: `if fd.tell() != offset: fd.seek(offset, 0)`, then `fd.read(data_len)` (which
+advances the position by the number of bytes actually read) -/
+def getDataFd (h : RFd) (s : Slot) : Except Err Val × RFd :=
+  let h := if h.pos ≠ s.1 then { h with pos := s.1 } else h
+  let r := (h.content.drop h.pos).take s.2.1
+  let h' : RFd := { h with pos := h.pos + r.length }
+  if r.length ≠ s.2.1 then (.error .assertion, h')
+  else if s.2.2 then
+    match decUtf8 r with
+    | some t => (.ok (.text t), h')
+    | none => (.error .unicode, h')
+  else (.ok (.bytes r), h')
+
+/-- a history of data reads on one shared file object (each element: the slot of the key that the
+step reads — the next entry of some `items()`/`values()` generator, or a keyed lookup); a raised
+exception is recorded and the history goes on (the caller may catch it) -/
+def readHistory : RFd → List Slot → List (Except Err Val)
+  | _, [] => []
+  | h, s :: rest => let (v, h') := getDataFd h s; v :: readHistory h' rest
+
 /-! ## writing -/
 
 /-- the `for key, val in data.items()` loop: index records and data blobs, `cur` = `cur_pos` -/
